@@ -19,6 +19,7 @@ LEVEL_TEXT = ("Static structural proof of necessary conditions: (R8.1) in the co
               "with their published codes and reachable from Sidecar.validate; (R8.4) error contexts balanced. Totality "
               "beyond explicit type guards, 'valid sidecar => no error' and reference expansion over all combinations "
               "are NOT decided.")
+LEVEL_EXTRA = "Added after the seeded evaluation: (R8.2) the table indexed by screened reference names is built from the whole sidecar, unfiltered; (R8.5) one reference pattern in all passes; (R8.6) '#' counted on a copy with definitions removed and Def-expand shrunk; (R8.7) results of per-entry loops are accumulated, never last-wins (one frozen exception)."
 
 ROWS = [
     {"key": "SidecarErrors.BLANK_HED_STRING", "code": None},
